@@ -1,6 +1,10 @@
 //! C17 — quoted amounts equal executed amounts; slippage limits are honoured (vAMM level; engine level in c17e).
 use super::curve::*;
+use crate::hist::{run_history, Act, Effect, Interp, Monitor, Obs, Step};
+use crate::ops::{hist_strategy, CfgProfile, HistCase, Weights};
 use crate::run::{Ctx, Outcome, Property, Tier, Violation};
+use crate::world::World;
+use serde::{Deserialize, Serialize};
 use crate::vsim::{attr, VSim};
 use cosmwasm_std::{Order, Storage, Uint128};
 use proptest::prelude::*;
@@ -161,26 +165,147 @@ pub fn vamm_case(c: &CurveCase, ctx: &Ctx, out: &mut Outcome) {
     }
 }
 
+
+// ------------------------------------------------------------------------------------------------ engine level
+
+#[derive(Default)]
+pub struct Mon17 {
+    near_limit: u64,
+}
+
+fn with_limit(act: &Act, l: u128) -> Act {
+    match act {
+        Act::Open { t, v, buy, margin, lev, attach, directed, .. } => Act::Open { t: *t, v: *v, buy: *buy, margin: *margin, lev: *lev, limit: l, attach: *attach, directed: *directed },
+        Act::Close { t, v, .. } => Act::Close { t: *t, v: *v, limit: l },
+        other => other.clone(),
+    }
+}
+
+impl Monitor for Mon17 {
+    fn before(&mut self, it: &mut Interp, act: &Act, pre: &Obs, out: &mut Outcome) -> Option<Violation> {
+        let (v, t) = match act {
+            Act::Open { v, t, .. } | Act::Close { v, t, .. } => (*v, *t),
+            _ => return None,
+        };
+        let snap = it.w.snapshot();
+        // (1) without a limit: what does the trade exchange?
+        let free = with_limit(act, 0);
+        let r0 = it.exec_act(&free);
+        let post0 = crate::hist::observe(&it.w);
+        it.w.restore(&snap);
+        if !r0.ok {
+            return None;
+        }
+        let eff = crate::hist::classify(act, &pre.pos[v][t], &post0.pos[v][t], true);
+        let (st0, st1) = (&pre.v[v].state, &post0.v[v].state);
+        // executed amount on the limited side and whether the trader receives (>= limit) or gives (<= limit)
+        let (executed, receives) = match (act, eff) {
+            (Act::Open { buy, .. }, Effect::Opened | Effect::Increased | Effect::Reduced) => (st0.base_asset_reserve.u128().abs_diff(st1.base_asset_reserve.u128()), *buy),
+            (Act::Close { .. }, Effect::Closed) => {
+                let long = pre.pos[v][t].as_ref().map(|p| !p.size.is_negative()).unwrap_or(true);
+                (st0.quote_asset_reserve.u128().abs_diff(st1.quote_asset_reserve.u128()), long)
+            }
+            _ => {
+                out.count("engine.path_without_limit_clause");
+                return None;
+            }
+        };
+        if executed == 0 {
+            return None;
+        }
+        out.count("engine.limit_experiments");
+        self.near_limit += 1;
+        let kind = format!("{}:{:?}", act.name(), eff);
+        // (2) limit exactly at the executed amount: identical outcome
+        let r1 = it.exec_act(&with_limit(act, executed));
+        let post1 = crate::hist::observe(&it.w);
+        it.w.restore(&snap);
+        if !r1.ok || post1 != post0 {
+            return Some(
+                Violation::new(
+                    "engine_limit_at_executed_amount",
+                    format!("{} ({}): without limit it exchanges {}; with limit = {} the call {} (state equal to the unlimited run: {})", act.name(), kind, executed, executed, if r1.ok { "succeeds" } else { "fails" }, post1 == post0),
+                )
+                .with("kind", kind)
+                .with("receives", receives),
+            );
+        }
+        // (3) one unit on the failing side: must be refused, nothing changes
+        let bad = if receives { executed + 1 } else { executed - 1 };
+        if bad == 0 {
+            return None;
+        }
+        let d0 = it.w.dump();
+        let r2 = it.exec_act(&with_limit(act, bad));
+        let changed = it.w.dump() != d0;
+        it.w.restore(&snap);
+        if r2.ok {
+            return Some(
+                Violation::new(
+                    "engine_limit_not_applied",
+                    format!("{} ({}): the trade exchanges {} but succeeded with limit {} ({}): the caller's limit was not applied", act.name(), kind, executed, bad, if receives { "receive at least" } else { "give at most" }),
+                )
+                .with("kind", kind)
+                .with("receives", receives),
+            );
+        }
+        if changed {
+            return Some(Violation::new("refused_trade_changed_state", format!("{} refused for its limit but storage changed", act.name())).with("kind", kind));
+        }
+        None
+    }
+    fn after(&mut self, _w: &World, _s: &Step, _out: &mut Outcome) -> Option<Violation> {
+        None
+    }
+    fn end(&mut self, _w: &World, out: &mut Outcome) {
+        out.nontrivial = self.near_limit >= 2;
+    }
+}
+
+#[derive(Clone, Debug, Serialize, Deserialize)]
+pub enum Case {
+    Vamm(CurveCase),
+    Engine(HistCase),
+}
+
 impl Property for C17 {
-    type Case = CurveCase;
+    type Case = Case;
     fn id(&self) -> &'static str {
         "C17"
     }
-    fn strategy(&self, tier: Tier) -> BoxedStrategy<CurveCase> {
-        case_strategy(tier.pick(30, 60)).boxed()
+    fn strategy(&self, tier: Tier) -> BoxedStrategy<Case> {
+        let mut p = CfgProfile::general();
+        p.fluct = false;
+        let mut w = Weights::trading();
+        w.close = 18;
+        w.squeeze = 2;
+        w.liq_weakest = 2;
+        w.liquidate = 1;
+        w.funding = 3;
+        prop_oneof![
+            15 => case_strategy(tier.pick(30, 60)).prop_map(Case::Vamm),
+            1 => hist_strategy(&p, &w, 4, tier.pick(25, 50)).prop_map(Case::Engine),
+        ]
+        .boxed()
     }
     fn cases(&self, tier: Tier) -> u32 {
-        tier.pick(300_000, 6_000_000)
+        tier.pick(120_000, 3_000_000)
     }
     fn rule(&self) -> String {
-        "vAMM level: generated reserve pairs and swap histories as in C01; at every step the InputAmount/OutputAmount answer in the pre-state is compared with what the same swap exchanges (reserve deltas and event attributes), the requested side must move by exactly the requested amount, and the same swap is re-executed from the same pre-state with a limit of executed-1 / executed / executed+1 / half / double: it must execute (with an identical post-state) iff the executed amount satisfies the limit by direction, and a refusal must leave raw storage unchanged. Non-trivial: a history containing a swap with non-zero division remainder whose limit is within +-1 of the executed amount. Distinct by digest of (reserves, ops).".into()
+        "vAMM level (15/16 of the cases): generated reserve pairs and swap histories as in C01; at every step the InputAmount/OutputAmount answer in the pre-state is compared with what the same swap exchanges (reserve deltas and event attributes), the requested side must move by exactly the requested amount, and the same swap is re-executed from the same pre-state with a limit of executed-1 / executed / executed+1 / half / double: it must execute (with an identical post-state) iff the executed amount satisfies the limit by direction, and a refusal must leave raw storage unchanged. Engine level (1/16): generated engine histories; every OpenPosition that opens / increases / reduces and every whole ClosePosition is run on a what-if copy without limit to learn the exchanged base (resp. quote) amount, then from the same pre-state with the limit exactly at that amount (must succeed with an identical observable state) and one raw unit on the failing side (must fail, dump unchanged). Reversals, partial closes and liquidations have no clause in the statement and are counted only. Non-trivial: vAMM: a swap with non-zero division remainder and a limit within +-1 of the executed amount; engine: >= 2 limit experiments in the history. Distinct by digest of the case. Zero-amount swaps are outside the domain (no caller of the vAMM sends one).".into()
     }
     fn assumptions(&self) -> Vec<String> {
         vec!["'honoured' is read in both directions: the limit is the only thing a limit may influence, so a swap whose limit is satisfied must behave exactly like the unlimited swap from the same state".into()]
     }
-    fn run_case(&self, c: &CurveCase, ctx: &Ctx) -> Outcome {
+    fn run_case(&self, c: &Case, ctx: &Ctx) -> Outcome {
         let mut out = Outcome::default();
-        vamm_case(c, ctx, &mut out);
+        match c {
+            Case::Vamm(cc) => vamm_case(cc, ctx, &mut out),
+            Case::Engine(h) => {
+                let mut m = Mon17::default();
+                run_history(h, &mut m, ctx, &mut out);
+            }
+        }
         out
     }
 }
